@@ -94,7 +94,7 @@ class Prop:
             for i in range(0, len(alts), CHUNK):
                 yield dict(kind="alts", univ=g["univ"], setup=g["setup"], alts=alts[i:i + CHUNK], label=g["label"])
         # histories on small sources: every k-th copy alternative followed by a mutation tail
-        stride = 41 if quick else 10
+        stride = 41 if quick else 18
         j = 0
         for g in groups:
             if g["n"] < 2:
@@ -106,7 +106,7 @@ class Prop:
                 h, _ = M.gen_history(rng, g["setup"], a, rng.randint(4, 10), univ=g["univ"])
                 yield dict(kind="hist", univ=h["univ"], ops=h["ops"], check_from=len(g["setup"]))
         # larger random sources
-        for i in range(25 if quick else 400):
+        for i in range(25 if quick else 300):
             setup, n, typed = M.random_source(rng, 4, 8 if quick else 12)
             h, _ = M.gen_history(rng, setup, M.random_copy_op(rng, n, typed), rng.randint(6, 14 if quick else 25))
             yield dict(kind="hist", univ=h["univ"], ops=h["ops"], check_from=len(setup))
